@@ -363,20 +363,26 @@ def runCmd : Nat → Ed → String → Bytes → Bytes → Bytes → Option Byte
         | some none => some (1, ed)
         | some (some re) =>
           let g := s.contains 103
-          let res := (List.range (e - b).toNat).foldl (fun (acc : Option Ed) (k : Nat) =>
+          -- `i += n; end += n` after each edit (n = change of the buffer length): the loop still makes
+          -- `e - b` iterations, the k-th on row `b + k + sh` where `sh` is the sum of the changes so far
+          let res := (List.range (e - b).toNat).foldl (fun (acc : Option (Ed × Int)) (k : Nat) =>
             match acc with
             | none => none
-            | some ed =>
-              match ed.line (b + (k : Int)) with
+            | some (ed, sh) =>
+              let row := b + (k : Int) + sh
+              match ed.line row with
               | none => none       -- lbuf_get returned NULL: rstr_find dereferences it
               | some ln =>
                 match substLine re ed.xrep g ln with
                 | none => none
-                | some none => some ed
-                | some (some nl) => ed.edit (some nl) (b + (k : Int)) (b + (k : Int) + 1)) (some ed)
+                | some none => some (ed, sh)
+                | some (some nl) =>
+                  match ed.edit (some nl) row (row + 1) with
+                  | none => none
+                  | some ed' => some (ed', sh + (ed'.len - ed.len))) (some (ed, 0))
           match res with
           | none => none
-          | some ed => some (0, ed)
+          | some (ed, _) => some (0, ed)
     else if handler == "ec_exec" then
       let guard : R Bool := if ed.xwa == 0 then bufsModified ed 0 (some (strOf "buffer modified")) else some (false, ed)
       match guard with
@@ -546,7 +552,12 @@ def ecWrite (ed : Ed) (loc cmd arg : Bytes) : R Int :=
         | none => none
         | some cur =>
           if path.headD 0 == 33 then
-            if path.length < 2 then some (1, ed) else some (0, { ed with unmodelled := true })
+            if path.length < 2 then some (1, ed) else
+            -- `cmd_pipe(path + 1, ibuf, 0)`: the command's output goes to the terminal; then the message and
+            -- nothing else (the buffer is neither renamed nor marked saved).  In vi mode `ex_print(NULL)`
+            -- starts the "press a key" protocol, which is not modelled.
+            let ed := ed.show ([34] ++ path ++ strOf "\"  [=" ++ intStr (e - b) ++ strOf "]  [w]")
+            some (0, if ed.xvis then { ed with unmodelled := true } else ed)
           else
             let ts := if cur.path == path then cur.mtime else 0
             match lbufSaveP ed cur.lb b.toNat e path (hasBang cmd) ts with
